@@ -204,15 +204,20 @@ def errorHandler (chk : C02.Constraint → Bytes → Bool) (cfg : Cfg) (l : List
 
 /-- router.go `defaultRequestHandler`: `_, err := app.next(ctx); if err != nil { if catch :=
 ctx.App().ErrorHandler(ctx, err); catch != nil { ctx.SendStatus(500) } }`.
-`chain = none`: the chain returned nil — nothing is called (`none`). -/
+`chain = none`: the chain returned nil — nothing is called (`none`).
+`left` = the body that is on the response when a FAILING error handler gives up (written by the
+handler that raised the error, or by the error handler itself before it failed): ctx.go
+`SendStatus(500)` sets the status — whatever status was set before — and writes the status text only
+`if len(c.fasthttp.Response.Body()) == 0`; headers set before stay. A handler that answers
+overwrites status and body (`c.Status(…).SendString(…)`). -/
 def funnel (chk : C02.Constraint → Bytes → Bool) (cfg : Cfg) (l : List Mounted) (rootOwn : Option Own)
-    (path : Bytes) (chain : Option Err) : Option Outcome :=
+    (path : Bytes) (chain : Option Err) (left : Bytes := []) : Option Outcome :=
   match chain with
   | none => none
   | some e =>
     match errorHandler chk cfg l rootOwn path e with
     | (r, some (st, body)) => some ⟨[r], st, body⟩
-    | (r, none) => some ⟨[r], 500, b "Internal Server Error"⟩
+    | (r, none) => some ⟨[r], 500, if left.isEmpty then b "Internal Server Error" else left⟩
 
 /-! ### fiber's own middleware that delivers errors itself: middleware/logger -/
 
